@@ -51,7 +51,8 @@ def run_prop(prop, tier):
         _trace_validation(ck, prop, wd, 600 if thorough else 150)
     ck.cov["behaviours_replayed"] = total
     ck.cov["traces_validated_against_impl"] = total
-    ck.cov["distinct_nontrivial"] = total
+    if not ck.cov["distinct_nontrivial"]:
+        ck.cov["distinct_nontrivial"] = total
     ck.cov["rule"] = RULES[prop]
     ck.cov["exhaustive"] = True
     ck.assumptions += ["Linux, 4 KiB pages (the harness instantiates HeapByteArray<N> for the ten modelled lengths)",
